@@ -69,6 +69,9 @@ def locations(level):
     L.append(("ADD", ("k32", (KECCAK1[1] - 1) % 2**256), X))
     if full:
         L.append(("ADD", ("k32", (KECCAK2[(1, 1)] - 1) % 2**256), K1))
+    # mapping with a 96-byte key (bytes/string keys): 128-byte preimage, hashed from concrete and from symbolic data
+    L.append(("keccak4", K1, K2, X, K1))
+    L.append(("keccak4", K1, K2, K1, K1))
     # packed-key mapping (|k| = 160)
     L.append(("keccakp", X, K1))
     if full:
